@@ -408,10 +408,38 @@ def check(ctx):
                     out.append(e)
                     break
         return out
-    sw = writes_of(r, "settings.json")
-    vw = writes_of(r, "assets_version")
-    ctx.require(bool(sw) and bool(vw), "update_if_outdated: settings or "
-                "version write not found")
+    # the whole start-up sequence of the module (initialise, upgrade) as one
+    # event order, specialised to the upgrade situation: both files exist and
+    # the recorded version is not the current one
+    ms = prog.module(SETTINGS_MOD)
+    rs_ = Interp(prog, inline=lambda fn: fn.module.name == SETTINGS_MOD and
+                 fn.name in ("initialize_if_needed", "update_if_outdated"),
+                 auto_inline=False).run_module(ms)
+
+    def upgrading(a: T):
+        if a.op == "call" and tm.callee_name(a) in (
+                ".exists", ".is_file", "os.path.exists", "os.path.isfile"):
+            return True
+        if a.op == "cmp" and any(
+                x.op in ("global", "named") and
+                str(x.args[0]).endswith("__version__") for x in a.walk()):
+            if a.args[0] in ("Eq", "Is"):
+                return False
+            if a.args[0] in ("NotEq", "IsNot"):
+                return True
+        if a.op == "cmp" and a.args[0] in ("Is", "IsNot") and any(
+                tm.is_const(z, None) for z in (a.args[1], a.args[2])):
+            return a.args[0] == "IsNot"
+        return None
+    sw = [e for e in writes_of(rs_, "settings.json")
+          if tm.fold(e.live, upgrading) is not False]
+    vw = [e for e in writes_of(rs_, "assets_version")
+          if tm.fold(e.live, upgrading) is not False]
+    if not sw or not vw:
+        sw = writes_of(r, "settings.json")
+        vw = writes_of(r, "assets_version")
+    ctx.require(bool(sw) and bool(vw), "upgrade: settings or version write "
+                "not found in the start-up sequence")
     ok = max(e.idx for e in sw) < min(e.idx for e in vw) and \
         not any(e.loops for e in sw + vw)
     ctx.ob("C19.3", vw[0], ok,
